@@ -508,7 +508,22 @@ def node_cases(seed, tier):
                 ops += bam(NAME0 + i, r.choice([r.randrange(252), 0, 251, cur[i], (cur[i] + 1) % 252, 40]), dst=r.choice([255, cur[i]]))
             else:
                 ops += [claim(r.choice(cur), NAME0 + r.randrange(ndev), ln=r.choice([8, 8, 7, 3, 0])), 'P']     # equal NAME / short claims: examined, outside the premise
+        if r.random() < 0.2:
+            # the application lists PGN 60928 / 65240 in its own message lists (so that claims reach its handlers): they stay system messages (seed C03-16)
+            ops = [r.choice(['L 1 60928,127250', 'L 0 60928', 'L 3 65240,129029', 'L 1 60928,59904,65240'])] + ops
         cases.append(cfg(ndev, src) + ' | ' + ' ; '.join(ops + ['T 251', 'P']))
+    # a contending claim behind a backlog of ordinary frames: ParseMessages takes 20 frames per call and leaves the rest in the driver (seed C03-17)
+    from nodegen import backlog
+    for k in ([19, 20, 21] if not thorough else list(range(15, 45))):
+        for nm in (0, ALL1):
+            cases.append(cfg(1, 30, t0=5000) + ' | ' + ' ; '.join(backlog(r, k, [claim(30, nm)])))
+    cases.append(cfg(2, 30, t0=5000) + ' | ' + ' ; '.join(backlog(r, 20, [claim(31, 0)]) + backlog(r, 19, [claim(30, 0), claim(32, 0)])))
+    # 32-bit scheduler: a deadline that computes to exactly 0xffffffff (the 'disabled' marker) must still fire - cold starts whose open delay,
+    # open retry or constructor time hit it, and claims whose 250 ms window ends there (seed C03-18); nothing special in the 64-bit build
+    for t0 in (4294967295 - 200, 4294967295, 4294967295 - 1000, 4294967295 - 201, 4294967295 - 199, 4294967295 - 300, 4294967295 - 100, 4294967295 - 301):
+        cases.append('NODE mode=1 ndev=1 src=30 q=40 slots=5 t0=%d cold=1 | P ; T 100 ; P ; T 100 ; P ; T 1 ; P ; T 260 ; P ; %s ; P ; T 251 ; P' % (t0, claim(30, 0)))
+    for d in (250, 251, 249):
+        cases.append('NODE mode=1 ndev=2 src=30 q=40 slots=5 t0=%d | %s ; P ; T 100 ; P ; T 150 ; P ; T 1 ; P ; %s ; P ; T 251 ; P' % (4294967295 - d, claim(30, 0), claim(31, 0)))
     return cases
 
 
@@ -520,6 +535,23 @@ def oracle_node(case, res):
     cfg, ops = parse_case(case)
     per_op, state = parse_result(res)
     ndev, src0 = cfg['ndev'], cfg['src']
+    if cfg['mode'] in (1, 2) and cfg.get('cold') and 'copen' not in cfg:
+        # a cold node whose CAN interface opens at once: a poll 200 ms or more after the first one completes Open() (and announces the claim)
+        # (the first call strictly later than the construction of the node opens the CAN interface; a call 200 ms or more after that one
+        #  completes Open())
+        t, first, late = 0, None, False
+        for o in ops:
+            if o and o[0] == 'T':
+                t += int(o[1])
+            elif o and (o[0] == 'P' or o[0] == 'S' or (o[0] == 'Q' and len(o) > 1 and o[1] in ('pi', 'ci', 'tx', 'rx', 'hd', 'hb', 'ac'))):
+                if first is None:
+                    if t > 0:
+                        first = t
+                elif t - first >= 201:
+                    late = True
+        if late and 'open=3' not in state:
+            return 'never-open:the node has not completed Open() although it was polled more than 200 ms after its first poll (%s)' % state.split(' dev0')[0]
+        return None
     if cfg['mode'] not in (1, 2) or cfg.get('cold'):
         return None
     addr = [own_addr(src0, i) for i in range(ndev)]
@@ -548,7 +580,11 @@ def oracle_node(case, res):
                 s.clear()                 # ParseMessages after >= 250 ms: every running claim has succeeded, a new search covers the whole range again
             last_claim_t = 0
         before = list(addr)
-        frames, pending = pending, []
+        frames, pending = pending[:20], pending[20:]     # one ParseMessages call takes at most 20 frames, the others wait in the driver
+        if len(frames) > 1:
+            sig = [f for f in frames if id_fields(f[0])[0] < 61440 or id_fields(f[0])[0] in (65240, 126208, 126464, 126996, 126998, 126993)]
+            if len(sig) <= 1 and all(id_fields(f[0])[0] in (127250, 127488, 129025, 130306) for f in frames if f not in sig):
+                frames = sig                  # ordinary data frames around at most one protocol frame do not change what the claim machine owes
         own = [(id_fields(e[1])[1], le_name(e[3])) for e in txs if id_fields(e[1])[0] == 60928 and e[2] == 8]
         for e in txs:
             if not e[4]:
